@@ -50,3 +50,29 @@ Definition filterpos_verdicts (lx ly : Q) (region : irect) (t : ts) (ex ey dx dy
   map (fun b : bool => if b then 0%N else 1%N)
       [chk_offset_frame region t ex ey; chk_point_frame lx ly region t ex ey; chk_spot_frame lx ly region t ex ey;
        chk_turb_device 10 10 (ix region) (iy region) dx dy 0 0 region t (t_sx t) (t_sy t)].
+
+(* ------------------------------------------------------------------ second pass *)
+(* device position of a feImage: layer origin + where the result lands on the layer + where the image lands in the result *)
+Definition feimage_device_pos (ox oy : Z) (subregion region : irect) : Z * Z :=
+  ((ox + fst filter_canvas_draw_pos + fst (feimage_pos subregion region))%Z,
+   (oy + snd filter_canvas_draw_pos + snd (feimage_pos subregion region))%Z).
+(* feOffset / feDropShadow: scale_coordinates with (sx, sy) = ts.get_scale(); tiny-skia's get_scale is
+   (hyp sx kx, hyp ky sy) with hyp a b = sqrt(a^2 + b^2): a function of the linear part (any `hyp`) *)
+Definition offset_of (hyp : Q -> Q -> Q) (dx dy : Q) (t : ts) : Q * Q :=
+  scale_coordinates_q dx dy (hyp (t_sx t) (t_kx t)) (hyp (t_ky t) (t_sy t)).
+(* a pattern-filled path: tiny-skia maps tile space to the device by (path transform) . (shader transform) *)
+Definition pattern_device_ts (T pattern_ts : ts) (rect_x rect_y sx sy : Q) : ts :=
+  ts_concat T (pattern_shader_ts pattern_ts rect_x rect_y sx sy).
+Definition opt_irect_eqb (a b : option irect) : bool :=
+  match a, b with
+  | Some x, Some y => (ix x =? ix y)%Z && (iy x =? iy y)%Z && (iw x =? iw y)%Z && (ih x =? ih y)%Z
+  | None, None => true | _, _ => false end.
+(* second-pass clauses on one frame move (0 = holds): clip sub-region, tile origin, feImage device position *)
+Definition filterpos_verdicts2 (sub region : irect) (ox oy dx dy ex ey : Z) : list N :=
+  map (fun b : bool => if b then 0%N else 1%N)
+      [opt_irect_eqb (translate_checked (ishift ex ey sub) (ishift ex ey region)) (translate_checked sub region);
+       match tile_origin (ishift ex ey sub) (ishift ex ey region), tile_origin sub region with
+       | Some a, Some b => (fst a =? fst b)%Z && (snd a =? snd b)%Z | None, None => true | _, _ => false end;
+       let a := feimage_device_pos (ox + dx - ex) (oy + dy - ey) (ishift ex ey sub) (ishift ex ey region) in
+       let b := feimage_device_pos ox oy sub region in
+       (fst a =? fst b + dx)%Z && (snd a =? snd b + dy)%Z].
